@@ -317,11 +317,13 @@ impl<'a> Run<'a> {
             self.metrics.lock().push(metrics);
         }
 
+        // Insert into updated map no matter what. This needs to happen
+        // before removing from running or else someone might sneak in and
+        // start a second update.
+        self.updated.write().insert(module.clone().into_owned());
+
         // Remove from running.
         self.running.write().remove(module.as_ref());
-
-        // Insert into updated map no matter what.
-        self.updated.write().insert(module.into_owned());
     }
 
     /// Loads the file for the given URI.
